@@ -24,7 +24,9 @@ import (
 	"github.com/openconfig/goyang/pkg/yang"
 	"verif/mc/core"
 	"verif/mc/explore"
+	"verif/mc/dump"
 	"verif/mc/gen/lexspace"
+	"verif/mc/gen/scale"
 	"verif/mc/ref/rfcread"
 )
 
@@ -59,8 +61,8 @@ func walk(e *yang.Entry, depth int, seen map[*yang.Entry]bool, f func(*yang.Entr
 	if e == nil {
 		return
 	}
-	if depth > 200 {
-		panic("entry tree deeper than 200 levels: cyclic tree?")
+	if depth > 5000 {
+		panic("entry tree deeper than 5000 levels: cyclic tree?")
 	}
 	if seen[e] {
 		return
@@ -449,6 +451,19 @@ func l5(c *core.Ctx, gi, fi, part int, emit func(in Input)) {
 
 // ---------------------------------------------------------------------------------------------
 
+func l7(n int) [][]dump.File {
+	tc, _ := scale.TypedefChain(n, 0, false)
+	tcc, _ := scale.TypedefChain(n, 0, true)
+	tn, _ := scale.TypedefChain(3, n, false)
+	out := [][]dump.File{{scale.Deep(n)}, {tc}, {tcc}, {tn}, {scale.IdentityChain(n, false)}, {scale.IdentityChain(n, true)}, {scale.IdentityFan(n)},
+		{scale.GroupingChain(n, false)}, {scale.GroupingChain(n, true)}, scale.Includes(n, false), scale.Includes(n, true), scale.ManyGroupings(n),
+		{{Name: "t.yang", Text: scale.Nested(n, false)}}, {{Name: "t.yang", Text: "module m { namespace \"urn:m\"; prefix m; " + strings.Repeat("container c {", n) + strings.Repeat("}", n) + " }"}}}
+	if n <= 257 {
+		out = append(out, scale.Wide(n), scale.Imports(n))
+	}
+	return out
+}
+
 func shards(tier string) []string {
 	var out []string
 	for _, s := range lexspace.Shards(tier) {
@@ -466,11 +481,14 @@ func shards(tier string) []string {
 		out = append(out, fmt.Sprintf("L4/%d", i))
 	}
 	out = append(out, l6shards()...)
+	for i := 0; i < 8; i++ {
+		out = append(out, fmt.Sprintf("L7/%d", i))
+	}
 	return append(out, l5shards()...)
 }
 
 func run(c *core.Ctx) {
-	c.Res.Bound = "L1/L2: the shared lexical spaces; L3: statement trees of <= 3 statements over 81 keywords (6 argument forms for <= 2 statements) at top level and under module/submodule headers; L4: 1-2 (thorough 3) files from a pool of self-, cross-, dangling and wrong-kind references x include/import links, both load orders; L6: 23 type bases x every ordered pair of 148 restriction statements with limit, wrap-around and malformed arguments (fraction-digits, range, length, enum value, bit position, pattern, path, base, require-instance, nested type) in a leaf, in a typedef and in a typedef narrowed twice; L5: every single-statement edit (delete, duplicate, drop argument, each of 81 keywords, 9 arguments, hoist, self-nest) of 14 seed files"
+	c.Res.Bound = "L1/L2: the shared lexical spaces; L3: statement trees of <= 3 statements over 81 keywords (6 argument forms for <= 2 statements) at top level and under module/submodule headers; L4: 1-2 (thorough 3) files from a pool of self-, cross-, dangling and wrong-kind references x include/import links, both load orders; L6: 23 type bases x every ordered pair of 148 restriction statements with limit, wrap-around and malformed arguments (fraction-digits, range, length, enum value, bit position, pattern, path, base, require-instance, nested type) in a leaf, in a typedef and in a typedef narrowed twice; L7: 16 scale shapes (deep, wide, long chains open and cyclic, many imports / includes / groupings) at every size to 64 and around the powers of two to 512; L5: every single-statement edit (delete, duplicate, drop argument, each of 81 keywords, 9 arguments, hoist, self-nest) of 14 seed files"
 	n := 0
 	emit := func(in Input) {
 		caseNo, ok := c.Begin()
@@ -521,6 +539,28 @@ func run(c *core.Ctx) {
 		var i int
 		fmt.Sscanf(c.Shard, "L4/%d", &i)
 		l4(c, i, c.Tier == "thorough", emit)
+	case "L7":
+		// L7: the scale shapes (deep nesting, wide containers, long typedef / identity / grouping
+		// chains, open and closed into cycles, many imports, includes and groupings) at every size to
+		// 64 and around the powers of two to 512
+		var k int
+		fmt.Sscanf(c.Shard, "L7/%d", &k)
+		i := 0
+		for _, n := range scale.Sizes(64, 512) {
+			for _, fs := range l7(n) {
+				if i++; i%8 != k {
+					continue
+				}
+				if c.Expired() {
+					return
+				}
+				in := Input{}
+				for _, f := range fs {
+					in.Files = append(in.Files, File{Name: f.Name, Text: f.Text})
+				}
+				emit(in)
+			}
+		}
 	case "L6":
 		var bi int
 		fmt.Sscanf(c.Shard, "L6/%d", &bi)
@@ -547,7 +587,7 @@ func replay(tier string, raw json.RawMessage) (bool, string, string) {
 func init() {
 	core.Register(&core.Prop{
 		ID: "C01", Variant: "plain", Shards: shards, Run: run, Replay: replay,
-		Rule:        "every input of six exhaustively enumerated layers (lexical spaces; type bodies whose restriction arguments sit at, inside and outside the limits the resolver computes with; statement trees over the whole keyword alphabet; cross-reference programs with self-, mutual, dangling, unknown-prefix and wrong-kind references across modules and submodules in all load orders; the single-edit neighbourhood of a seed corpus) is run through yang.Parse, Modules.Parse, Process, and - when processing is clean - ToEntry, GetErrors, a full guarded walk and Find with paths that exist and paths that do not, from the module entry and from inner nodes; the oracle is that every call returns: a Go panic is caught in-process, a fatal error or a hang kills the crash-isolated worker and is attributed to the case it had announced; states = distinct inputs; non-trivial = inputs that reach processing",
+		Rule:        "every input of seven exhaustively enumerated layers (lexical spaces; type bodies whose restriction arguments sit at, inside and outside the limits the resolver computes with; statement trees over the whole keyword alphabet; cross-reference programs with self-, mutual, dangling, unknown-prefix and wrong-kind references across modules and submodules in all load orders; the single-edit neighbourhood of a seed corpus) is run through yang.Parse, Modules.Parse, Process, and - when processing is clean - ToEntry, GetErrors, a full guarded walk and Find with paths that exist and paths that do not, from the module entry and from inner nodes; the oracle is that every call returns: a Go panic is caught in-process, a fatal error or a hang kills the crash-isolated worker and is attributed to the case it had announced; states = distinct inputs; non-trivial = inputs that reach processing",
 		Assumptions: []string{"trees are read only after a Process that returned no errors", "a case that runs longer than 40 s is a hang (cases take microseconds to milliseconds)"},
 	})
 }
